@@ -57,7 +57,7 @@ static Case gen_case() {
     switch (weighted({22, 22, 34, 17, 5})) {
       case 0:
         s.kind = "rw";  // entries, pool(0 none,1 init0,2..), refused adds, iterators, steps, non-table?, comp
-        s.p = {pick(0, 60), one_of<long>({0, 0, 1, 2, 3, 5}), pick(0, 3), pick(0, 4), pick(0, 70), chance(12), pick(0, 5)};
+        s.p = {chance(15) ? pick(100, 400) : pick(0, 60), one_of<long>({0, 0, 1, 2, 3, 5}), pick(0, 3), pick(0, 4), pick(0, 70), chance(12), pick(0, 5)};
         break;
       case 1:
         s.kind = "merge";  // sources, keys per source, user sources?, fail_at (0 = never), iterators, steps, iterator kind mix
@@ -137,17 +137,28 @@ static int make_table_fd(int n, int comp, const char *pfx, int pool, int refused
   bool squeezable = (n + refused) % 2 == 0;
   c.block_size = squeezable ? 8192 : 1024;
   c.pool = pool == 0 ? -1 : pool == 1 ? 0 : pool - 1;
+  // key / layout shapes: buffers inside the writer, the block builder and the iterators start small (64 / 256 bytes, 64
+  // restart offsets) and are regrown and reset as they go; each shape crosses one of those first-growth thresholds
+  int shape = (n + comp) % 4;  // 0 short keys; 1 keys > 256 bytes; 2 keys > 64 bytes; 3 restart interval 1 with hundreds of entries per block
+  std::string stem = pfx;
+  if (shape == 1) stem += std::string(300, 'L');
+  if (shape == 2) stem += std::string(66, 'M');
+  if (shape == 3) {
+    c.restart = 1;
+    c.block_size = 8192;
+    squeezable = false;
+  }
   KVs kv;
   for (int i = 0; i < n; i++) {
     char k[32];
-    snprintf(k, sizeof k, "%s%04d", pfx, i);
+    snprintf(k, sizeof k, "%04d", i);
     BStr v;
-    v.glen = squeezable ? 300 + (uint32_t)(i % 5) * 100 : 20 + (uint32_t)(i % 7) * 30;
+    v.glen = shape == 3 ? 4 : squeezable ? 300 + (uint32_t)(i % 5) * 100 : 20 + (uint32_t)(i % 7) * 30;
     v.gkind = squeezable ? 2 : 0;
     v.gseed = (uint32_t)i;
-    kv.emplace_back(bytes(k), v.expand());
+    kv.emplace_back(bytes(stem + k), v.expand());
     if (refused && i % 5 == 4)
-      for (int j = 0; j < refused; j++) kv.emplace_back(bytes(k), bytes("refused"));
+      for (int j = 0; j < refused; j++) kv.emplace_back(bytes(stem + k), bytes("refused"));
   }
   return write_table(c, kv);
 }
